@@ -321,7 +321,12 @@ def level_spec(draw, triple=None):
         mods = [{"filler": draw(gen.dna_text(8, 40)), "stars": [draw(st.integers(2, 30))],
                  "b": draw(gen.dna_text(0, 25)), "rot": draw(st.integers(0, 200))}]
     else:
-        chain = draw(plasmid.clean_chain(g1.k, 4, allow_palindromes=False, strict_last=True))
+        # the closing overhang only has to differ from the others: it may be the
+        # reverse complement of a start overhang (also of the vector's other one)
+        chain = draw(plasmid.clean_chain(g1.k, 4, allow_palindromes=False,
+                                         strict_last=draw(st.booleans())))
+        if draw(st.integers(0, 7)) == 0 and dna.rc(chain[0]) not in chain[:-1]:
+            chain[-1] = dna.rc(chain[0])      # vector overhangs reverse-complementary
         mods = [draw(plasmid.module_body(g1, 30)) for _ in range(len(chain) - 1)]
     spec = {"triple": t, "chain": chain, "modules": mods,
             "vector": {"filler": draw(gen.dna_text(8, 40)), "stars": [draw(st.integers(0, 40))],
